@@ -199,16 +199,18 @@ def gen_program(rng, crate, index, size):
                 return n
         raise RuntimeError("idents exhausted")
 
-    def add_bench(modpath, indent, nested_ok=True, force_kind=None, force_form=None):
+    def add_bench(modpath, indent, nested_ok=True, force_kind=None, force_form=None, force_ident=None):
         bid = next_id[0]
         next_id[0] += 1
-        ident = pick_ident(tuple(modpath))
+        ident = force_ident or pick_ident(tuple(modpath))
         pretty = ident.replace("r#", "")
         kind = force_kind or rng.choice(["plain", "plain", "bencher", "args", "args", "args", "types", "consts", "consts_ext", "both", "types_args", "consts_args"])
         opts_parts, exp_opts, ignore_attr = gen_options(rng, "bench", kind == "plain")
         display = pretty
         shown = used_names.setdefault(("display",) + tuple(modpath), set())
-        if rng.random() < 0.3:
+        if force_ident:
+            pass                            # a function that shares its name with a sibling module keeps that name
+        elif rng.random() < 0.3:
             display = rng.choice(["custom name", "my-bench", "x10", "x9", "Ünï", "a.b", "name with spaces"]) + ("" if rng.random() < 0.5 else str(bid))
             if display in shown:
                 display += "_%d" % bid      # sibling display names stay unique (paths must identify cases)
@@ -344,8 +346,8 @@ def gen_program(rng, crate, index, size):
             P.dump_expect.pop()       # `types = []` / `consts = []` register nothing at all
         return b
 
-    def add_module(modpath, indent, depth):
-        name = pick_ident(tuple(modpath))
+    def add_module(modpath, indent, depth, force_ident=None, min_items=1):
+        name = force_ident or pick_ident(tuple(modpath))
         pretty = name.replace("r#", "")
         pad = "    " * indent
         grouped = rng.random() < 0.6
@@ -353,7 +355,7 @@ def gen_program(rng, crate, index, size):
             parts, exp_opts, ignore_attr = gen_options(rng, "group", False)
             display = pretty
             shown = used_names.setdefault(("display",) + tuple(modpath), set())
-            if rng.random() < 0.4 or display in shown:
+            if (rng.random() < 0.4 or display in shown) and not force_ident:
                 display = rng.choice(["Group", "grp-x", "G 1", "ω"]) + str(rng.randrange(100))
                 while display in shown:
                     display += "x"
@@ -372,7 +374,7 @@ def gen_program(rng, crate, index, size):
         body.append("%smod %s {" % (pad, name))
         body.append("%s    use std::time::Duration;" % pad)
         sub = modpath + [name]
-        n_items = rng.randrange(1, 4)
+        n_items = max(min_items, rng.randrange(1, 4))
         for _ in range(n_items):
             if depth < 3 and rng.random() < 0.3:
                 add_module(sub, indent + 1, depth + 1)
@@ -396,6 +398,15 @@ def gen_program(rng, crate, index, size):
             add_bench(sub, 1, nested_ok=False, force_kind="consts_ext", force_form=form)
         for k in ("plain", "bencher", "types", "consts", "both", "both", "types_args", "consts_args"):
             add_bench(sub, 1, nested_ok=(k in ("plain", "bencher")), force_kind=k)
+        body.append("}")
+        # a function and a sibling module of the same name (separate namespaces), declared in both orders
+        body.append("mod twins {")
+        body.append("    use std::time::Duration;")
+        sub = [crate, "twins"]
+        add_bench(sub, 1, nested_ok=False, force_kind=rng.choice(["plain", "bencher", "args"]), force_ident="parse")
+        add_module(sub, 1, 3, force_ident="parse", min_items=2)
+        add_module(sub, 1, 3, force_ident="scan", min_items=2)
+        add_bench(sub, 1, nested_ok=False, force_kind=rng.choice(["plain", "bencher"]), force_ident="scan")
         body.append("}")
     P.source = PRELUDE + "\n".join(body) + "\n"
     for i, it in enumerate(P.spec.items):
